@@ -7,6 +7,7 @@ var (
 	vBuildNo     int
 	vExecBuild   = map[string]int{}             // function name -> index of the build of its last successful execution
 	vEvalIn      = map[int]map[string]bool{}    // build index -> names evaluated in it
+	vBodyRanIn   = map[int]map[string]bool{}    // build index -> names whose body ran and failed in it (failure recorded)
 	vPlain       []string                       // plain (not generated) source files of the shape
 	vHasDir      bool
 	vDirEntries  = []string{"d/x.txt", "d/y.txt"}
@@ -68,11 +69,11 @@ func vFunctionNames() []string {
 // vEdit performs one symbolic edit of the tree.
 func vEdit() {
 	kinds := []string{"nothing"}
-	if !vKeepProject {
-		kinds = append(kinds, "env") // code and referenced values change only with a reload
+	if !vKeepProject || vKept == nil {
+		kinds = append(kinds, "env") // code and referenced values change only with a (re)load
 	}
 	if len(vPlain) > 0 {
-		kinds = append(kinds, "content")
+		kinds = append(kinds, "content", "delete-source")
 	}
 	hasGen := false
 	for i := range vShape {
@@ -94,13 +95,21 @@ func vEdit() {
 		src := vPlain[vChoose("which-source", len(vPlain))]
 		p := vRoot + "/" + src
 		c := vSymByte("new-content")
-		if c != vFS[p].content {
+		if n, ok := vFS[p]; !ok || c != n.content {
 			vTouch(src)
 			vReach("edit-content")
 		} else {
 			vReach("edit-same-content-rewrite")
 		}
 		vWriteFile(p, c)
+	case "delete-source":
+		// a declared source that does not exist (any more): its checksum is the empty string
+		src := vPlain[vChoose("which-source", len(vPlain))]
+		if _, ok := vFS[vRoot+"/"+src]; ok {
+			vRemove(vRoot + "/" + src)
+			vTouch(src)
+			vReach("edit-delete-source")
+		}
 	case "env":
 		names := vFunctionNames()
 		n := names[vChoose("which-function", len(names))]
@@ -205,6 +214,14 @@ func vBuildOf(tn string, opts *RunOptions) vBuildResult {
 	for _, l := range vCompleted {
 		vEvalIn[vBuildNo][vNameOf(l)] = true
 	}
+	vBodyRanIn[vBuildNo] = map[string]bool{}
+	for _, r := range vRan {
+		if vFail[r] && !crashed {
+			// the body ran and failed in a process that lived to record the failure: the re-run
+			// flag, not the dependency's stamp, is what must protect this target afterwards
+			vBodyRanIn[vBuildNo][r] = true
+		}
+	}
 	for _, r := range vRan {
 		if vLastOK[r] && !vFail[r] {
 			if _, pending := vPending[r]; !pending {
@@ -273,7 +290,7 @@ func vCheckC01(tn string) {
 			// target to completion (a partial build of the dependency, or the process died first):
 			// that a dependency re-executed is remembered only in memory, and a function's persisted
 			// stamp does not change when it re-executes
-			vRegion("D6-dependency-built-alone", vExecBuild[d] > 0 && !vEvalIn[vExecBuild[d]][s.name])
+			vRegion("D6-dependency-built-alone", vExecBuild[d] > 0 && !vEvalIn[vExecBuild[d]][s.name] && !vBodyRanIn[vExecBuild[d]][s.name])
 			vAssert(t > vExec[d], "C01: not re-executed after a dependency executed")
 		}
 	}
@@ -457,7 +474,22 @@ func vEvaluatingSet() map[string]bool {
 
 // ---------------------------------------------------------------- harness entry points
 
-var vPlans = []string{"", "EB", "EBB", "BEB", "EEB", "EBE"}
+var vPlans = []string{"", "EB", "EBB", "BEB", "EEB", "EBE", "G", "EBG", "GEB"}
+
+// vCollect: `dawn gc` — a fresh load of the project followed by Project.GC. It must not change what
+// the following builds execute (C14), which the C01/C02 oracles of the later builds then check.
+func vCollect() {
+	proj, err := vLoadProject()
+	vAssert(err == nil, "C14: the project does not load for a collection")
+	if err != nil {
+		return
+	}
+	vAssert(proj.GC() == nil, "C14: the collection fails")
+	for _, p := range vRemoved {
+		vAssert(len(p) > len(vWork) && p[:len(vWork)+1] == vWork+"/", "C14: the collection removed something outside the build directory")
+	}
+	vReach("collected")
+}
 
 func vSetup() {
 	vInit(vParam("shape"))
@@ -506,15 +538,18 @@ func vSteps() {
 		n = len(plan)
 	}
 	for i := 0; i < n; i++ {
-		edit := false
+		kind := byte('B')
 		if plan != "" {
-			edit = plan[i] == 'E'
-		} else {
-			edit = vChoose("step-kind", 2) == 0
+			kind = plan[i]
+		} else if vChoose("step-kind", 2) == 0 {
+			kind = 'E'
 		}
-		if edit {
+		switch kind {
+		case 'E':
 			vEdit()
-		} else {
+		case 'G':
+			vCollect()
+		default:
 			vRunBuild("mid")
 		}
 	}
